@@ -185,3 +185,33 @@ func H_C06_declared_len() {
 	vAfter(r)
 	vcover("end")
 }
+
+// H_C06_tsfrac: a binary timestamp 2000-01-01T00:00:00 whose fractional-seconds field has a five-byte exponent VarInt with
+// a symbolic sign, symbolic high and low bits (the solver chooses them) and a coefficient that is absent or 1. No exponent may make
+// the reader panic, or compute / allocate in proportion to the exponent (big.Int.Exp with an exponent taken from the
+// input that can reach 2^28 is the engine's resource event).
+func H_C06_tsfrac() {
+	// five-byte VarInt: the first byte (sign bit 6 and the six highest value bits) and the last byte (the seven lowest
+	// value bits) are symbolic, the three in between are zero or all ones: exponents near 0, near +-2^28 multiples and
+	// near the int32 limits (a fully symbolic 34-bit exponent leaves the Int-theory queries undecided)
+	hi, lo := vnondetU8()&0x7F, vnondetU8()&0x7F
+	mid := byte(0)
+	if vnondetBool() {
+		mid = 0x7F
+	}
+	vassume(hi&0x3F != 0) // |exponent| >= 2^28: the hostile range (small exponents, with symbolic fractions: C15)
+	e := []byte{hi, mid, mid, mid, 0x80 | lo}
+	// the coefficient is absent (zero) or 1: with a symbolic coefficient the nanoseconds stay symbolic and the calendar
+	// arithmetic of package time (divisions) leaves the queries undecided
+	var coef []byte
+	if vnondetBool() {
+		coef = []byte{1}
+	}
+	body := vCat([]byte{0x80, 0x0F, 0xD0, 0x81, 0x81, 0x80, 0x80, 0x80}, e, coef)
+	doc := vCat(vBVM, vTLV(0x60, body...), []byte{0x20})
+	r := NewReaderBytes(doc)
+	var evs []vEv
+	vTraverse(r, 0, 2, true, &evs)
+	vAfter(r)
+	vcover("end")
+}
